@@ -19,7 +19,7 @@ def funcs : List (String × String) := [
   ("internal/target/queue/queue.go:Queue.deliver", "f9c76cc6fc51885f"),
   ("internal/target/queue/queue.go:Queue.emitDSN", "1e8fbe65a4db35c1"),
   ("internal/target/queue/queue.go:Queue.tryDelivery", "91d36a51cc7d0be5"),
-  ("internal/target/queue/queue.go:toSMTPErr", "22651b4e75b94c9a")
+  ("internal/target/queue/queue.go:toSMTPErr", "554ef79be59f95a6")
 ]
 
 end MaddyVerif.Expect.FuncSkelC18
